@@ -400,6 +400,9 @@ func (m *Map) find(in *interp, k value) int {
 }
 
 func (m *Map) lookup(in *interp, k value) (value, bool) {
+	if in.sched != nil && m != nil {
+		in.raceCheck(m, false)
+	}
 	i := m.find(in, k)
 	if i < 0 {
 		return nil, false
@@ -408,6 +411,9 @@ func (m *Map) lookup(in *interp, k value) (value, bool) {
 }
 
 func (m *Map) insert(in *interp, k, v value) {
+	if in.sched != nil {
+		in.raceCheck(m, true)
+	}
 	i := m.find(in, k)
 	if i >= 0 {
 		old := m.vals[i]
@@ -440,6 +446,9 @@ func (m *Map) insert(in *interp, k, v value) {
 }
 
 func (m *Map) delete(in *interp, k value) {
+	if in.sched != nil && m != nil {
+		in.raceCheck(m, true)
+	}
 	i := m.find(in, k)
 	if i < 0 {
 		return
